@@ -72,7 +72,7 @@ var Properties = map[string]PropDef{
 		},
 	},
 	"C11": {
-		ID:     "C11",
+		ID: "C11", AssertPrefix: "C11.",
 		Bounds: "quick: every rune string of length <= 3 (each rune any Unicode scalar value) and length <= 5 over the representative alphabet {/ * a 1 space newline @ U+0000}; thorough: length <= 4 over all runes and <= 6 over the representative alphabet. Unwinding: 60 loop iterations per frame, call depth 60",
 		Assumptions: []string{
 			"strings.NewReader / bufio.Reader are modelled by the documented ReadRune / UnreadRune contract over a sequence of runes; UTF-8 decoding itself is not modelled (the input domain is rune sequences)",
@@ -84,6 +84,7 @@ var Properties = map[string]PropDef{
 			{Name: "parser.ZZC11Lex", Quick: map[string]int{"N": 5, "ALPHA": 1}, Thorough: map[string]int{"N": 6, "ALPHA": 1}, Depth: 60, Loop: 60, MaxPaths: 3000000},
 			{Name: "parser.ZZC11Parse", Quick: map[string]int{"N": 3}, Thorough: map[string]int{"N": 4}, Depth: 100, Loop: 100, MaxPaths: 3000000},
 			{Name: "parser.ZZC11Parse", Quick: map[string]int{"N": 4, "ALPHA": 1}, Thorough: map[string]int{"N": 6, "ALPHA": 1}, Depth: 100, Loop: 100, MaxPaths: 3000000},
+			{Name: "zzpub.ZZMenuVerdicts", Depth: 400, Loop: 3000, Note: "the 90 whole program texts of the menus (incl. types recursive through every constructor) parse within the unwinding bound"},
 		},
 	},
 	"C12": {
@@ -143,7 +144,7 @@ var Properties = map[string]PropDef{
 			"natively (replay) the same harness builds os.Args, a fresh flag set and real program files (syntax error / type error / a program printing a label) and observes exit vs return and the printed label",
 		},
 		Outside:   "the flag package's own parsing of spellings, panics inside the real stages (C09, C11), benchmark and web-server modes, the exact text of diagnostics",
-		Harnesses: []HarnessDef{{Name: "cmd.ZZC18Cli", Optional: []string{"C18.noexecute-anywhere-never-runs", "C18.runs-only-checked-programs"}}},
+		Harnesses: []HarnessDef{{Name: "cmd.ZZC18Cli", Optional: []string{"C18.noexecute-anywhere-never-runs", "C18.runs-only-checked-programs"}}, {Name: "process.ZZC09Slow", Note: "the gate the CLI relies on: process.Typecheck reports the verdict however long checking takes"}},
 	},
 	"C15": {
 		ID: "C15", AssertPrefix: "C15.",
@@ -315,6 +316,7 @@ func c09Harnesses() []HarnessDef {
 		hs = append(hs, h)
 	}
 	hs = append(hs, HarnessDef{Name: "process.ZZC09Worker"})
+	hs = append(hs, HarnessDef{Name: "process.ZZC09Slow", Note: "one body takes 2.5 s to check (virtual time under gse, real time natively)"})
 	hs = append(hs, HarnessDef{Name: "zzpub.ZZMenuVerdicts", Depth: 400, Loop: 3000})
 	hs = append(hs, HarnessDef{Name: "types.ZZC08Phases", Depth: 200})
 	hs = append(hs, HarnessDef{Name: "types.ZZC08Cost", Quick: map[string]int{"N": 4}, Thorough: map[string]int{"N": 6}, Depth: 300})
